@@ -111,6 +111,8 @@ class Build:
         self.rma_index = []         # prog index of every rma op, with the per-rank step descriptions (for messages)
         self.nid = 0
         self.last_writer = {}       # (t, i) -> (origin, round, mode) of the last update
+        self.rmw = []               # (round, target, element, old value, [(origin, call id, addend)])
+        self.cas_taint = set()      # (round, target, element): a successful Compare_and_swap is followed by another call there
         self.prog.append({"op": "win_create", "win": "w", "hex": {"@": [num.hex(m) for m in self.mem]}, "unit": self.unit,
                           "alloc": bool(case.get("alloc"))})
         rounds = case["rounds"]
@@ -166,7 +168,9 @@ class Build:
             kind = pl["kind"]
             if kind == "putget" and not passive:
                 kind = "put"
-            c = alloc(t, i, pl.get("c", 1))
+            if kind == "rmw" and mode != "lock":
+                kind = "accmulti"
+            c = alloc(t, i, 1 if kind == "rmw" else pl.get("c", 1))
             if c == 0:
                 continue
             origins = [x % np_ for x in pl.get("o", [0])] or [0]
@@ -204,7 +208,12 @@ class Build:
             elif kind == "accseq":
                 cur = list(old)
                 s = []
+                cas_hit = False
                 for a in pl.get("ops", [])[:4] or [{"f": "acc"}]:
+                    if cas_hit:
+                        # a successful swap followed by another call of the sequence (known finding: the swap is not ordered)
+                        for jj in range(i, i + c):
+                            self.cas_taint.add((ri, t, jj))
                     f = a.get("f", "acc")
                     op = a.get("op", "SUM")
                     if num.signed and op == "PROD":
@@ -229,15 +238,32 @@ class Build:
                         cur[j] = num.apply(op, cur[j], v[0])
                     elif f == "cas":
                         j = a.get("j", 0) % c
-                        cmpv = cur[j] if a.get("hit", True) else num.norm(cur[j] + 1)
+                        hit = a.get("hit", 0) % 3          # 0: equal, 1: differs in the low bits, 2: differs in the highest byte only
+                        cmpv = cur[j] if hit == 0 else num.norm(cur[j] + 1) if hit == 1 else num.norm(cur[j] ^ (1 << (num.bits - 8)))
                         s.append({"k": "cas", "id": n, "data": num.hex(v[:1]), "cmp": num.hex([cmpv]), "t": t, "disp": self.disp(i + j)})
                         results[o0][n] = ("cas:" + ("hit" if cmpv == cur[j] else "miss"), [cur[j]], (t, i + j, 1))
                         if cmpv == cur[j]:
                             cur[j] = v[0]
+                            cas_hit = True
                     self.labels.add("call:" + f)
                 seqs[o0].setdefault(t, []).append(s)
                 newmem[t][i:i + c] = cur
                 wrote(o0, t, i, c)
+            elif kind == "rmw":
+                # read-modify-write by several origins, each inside its own EXCLUSIVE epoch: Get, flush, Put(fetched + add).  The final value
+                # and the set of fetched values are those of SOME serial order of the epochs: this is what the exclusive lock guarantees
+                adds = []
+                for k_, o in enumerate(list(dict.fromkeys(origins))[:4]):
+                    v = num.value(pl.get("v", 0) + 3 * k_) if not num.signed else [1, 2, 5, -3][k_]
+                    n = newid()
+                    seqs[o].setdefault(t, []).append([{"k": "rmw", "id": n, "add": num.hex([v]), "t": t, "disp": self.disp(i)}])
+                    adds.append((o, n, v))
+                    wrote(o, t, i, 1)
+                    if k_ > 0:
+                        self.nontrivial = True
+                        self.labels.add("concurrent-exclusive-epochs-same-location")
+                self.rmw.append((ri, t, i, old[0], adds))
+                newmem[t][i] = num.norm(old[0] + sum(v for _, _, v in adds))
             elif kind == "accmulti":
                 op = pl.get("op", "SUM")
                 if op not in COMMUTATIVE or (num.signed and op == "PROD"):
@@ -289,7 +315,9 @@ class Build:
             self.pending_results = getattr(self, "pending_results", [])
             self.pending_results.append(results)
             return
-        self.prog.append({"op": "barrier"})
+        if passive:
+            self.prog.append({"op": "barrier"})       # the other origins' epochs must be over before the target looks at its memory
+        # (after a closing fence the window is read at once: the fence itself guarantees that every operation is complete)
         self.expect_mem.append((len(self.prog), [list(m) for m in self.mem], ri))
         self.prog.append({"op": "win_read", "win": "w", "lock": passive})
         allres = getattr(self, "pending_results", []) + [results]
@@ -345,9 +373,40 @@ def judge(b, res, oc, E):
                     continue
                 got = num.unhex(ent[0])
                 if got != want:
-                    oc.bad("fetched:%s:%s" % (kind, b.case["rounds"][ri]["mode"]),
+                    tainted = any((ri, t, j) in b.cas_taint for j in range(i, i + c))
+                    oc.bad("cas-swap-not-ordered" if tainted else "fetched:%s:%s" % (kind, b.case["rounds"][ri]["mode"]),
                            "round %d (%s): rank %d, %s on elements [%d,%d) of rank %d fetched %s, expected %s%s"
                            % (ri, b.case["rounds"][ri]["mode"], r, kind, i, i + c, t, got, want, describe(b, ri)))
+    # read-modify-write epochs: the fetched values are the partial sums of some serial order
+    import itertools
+    for ri, t, i, old, adds in b.rmw:
+        got = {}
+        for idx, exp, ri2 in b.expect_res:
+            if ri2 < ri:
+                continue
+            for o, n, v in adds:
+                ent = (res.get(o, idx) or {}).get("res", {}).get(str(n))
+                if ent is not None and ent[0] is not None and n not in got:
+                    got[n] = num.unhex(ent[0])[0]
+        if len(got) != len(adds):
+            oc.bad("not-executed", "round %d: missing fetched values of the read-modify-write on element %d of rank %d" % (ri, i, t))
+            continue
+        ok = False
+        for perm in itertools.permutations(adds):
+            cur = old
+            good = True
+            for o, n, v in perm:
+                if got[n] != cur:
+                    good = False
+                    break
+                cur = num.norm(cur + v)
+            if good:
+                ok = True
+                break
+        if not ok:
+            oc.bad("exclusive-lock:not-atomic", "round %d (lock): the origins %s each did lock(EXCLUSIVE, %d); Get(element %d); flush; Put(fetched + add); unlock with "
+                   "addends %s; the element held %s; they fetched %s: no serial order of the epochs explains these values%s"
+                   % (ri, [o for o, _, _ in adds], t, i, [v for _, _, v in adds], old, [got[n] for _, n, _ in adds], describe(b, ri)))
     # window memories
     for idx, want, ri in b.expect_mem:
         for r in range(b.np):
@@ -362,7 +421,9 @@ def judge(b, res, oc, E):
             got = num.unhex(rec["hex"])
             if got != want[r]:
                 diff = [j for j in range(len(want[r])) if j >= len(got) or got[j] != want[r][j]]
-                oc.bad("window:%s" % b.case["rounds"][ri]["mode"],
+                tainted = all(any((r2, r, j) in b.cas_taint for r2 in range(ri + 1)) for j in diff)
+                rmw_ = all(any((r2, t2, i2) == (ri, r, j) for r2, t2, i2, _, _ in b.rmw) for j in diff)
+                oc.bad("cas-swap-not-ordered" if tainted else "exclusive-lock:not-atomic" if rmw_ else "window:%s" % b.case["rounds"][ri]["mode"],
                        "after round %d (%s) the window of rank %d holds %s, expected %s (elements %s differ)%s"
                        % (ri, b.case["rounds"][ri]["mode"], r, got, want[r], diff, describe(b, ri)))
                 return
